@@ -132,7 +132,12 @@ def create_random_binary_mask(features):
 
 
 def searchsorted(bin_locations, inputs, eps=1e-6):
-    bin_locations[..., -1] += eps
+    # The last bin is closed on the right: its edge is moved up by eps. This is done on a copy, so that
+    # the caller's tensor is left untouched, and followed by one more representable step, because a
+    # fixed absolute eps is absorbed by rounding once the edge is large (>= 32 in single precision).
+    right_edge = bin_locations[..., -1:] + eps
+    right_edge = torch.nextafter(right_edge, torch.full_like(right_edge, float("inf")))
+    bin_locations = torch.cat([bin_locations[..., :-1], right_edge], dim=-1)
     return torch.sum(inputs[..., None] >= bin_locations, dim=-1) - 1
 
 
